@@ -82,6 +82,8 @@ var timeMeths = map[string]meth{
 	"Unix":  {lean: "Time.unix", res: tInt},
 	"After": {infix: ">", res: tBool, dec: true}, "Before": {infix: "<", res: tBool, dec: true},
 	"Equal": {infix: "=", res: tBool, dec: true},
+	// additive (ties): t.Add(d) with d a time.Duration (Int nanoseconds); t.UnixNano()
+	"Add": {infix: "+", res: tTime}, "UnixNano": {lean: "id", res: tInt},
 }
 
 var d34Meths = map[string]meth{
@@ -117,6 +119,10 @@ func (u unsupported) Error() string { return "unsupported: " + u.msg }
 func bad(f string, a ...any) { panic(unsupported{fmt.Sprintf(f, a...)}) }
 
 func leanIdent(s string) string {
+	// additive (ties): keys of opaque inputs such as `ctx.BlockHeight()` / `len(data.ShardDoubleHashes)`
+	s = strings.ReplaceAll(s, "()", "")
+	s = strings.ReplaceAll(s, "(", "_")
+	s = strings.ReplaceAll(s, ")", "")
 	s = strings.ReplaceAll(s, ".", "_")
 	switch s {
 	case "from", "to", "end", "at", "fun", "let", "in", "then", "else", "if", "def", "open", "section", "namespace", "structure", "where", "do", "match", "with", "instance", "class", "theorem", "example":
@@ -309,6 +315,14 @@ func (ev *env) expr(e ast.Expr) tre {
 			r.panics = append(r.panics, "(!Int.isZeroB "+b.lean+")")
 			r.t = tInt
 			return r
+		case token.REM: // additive (ties): Go's % is the truncated remainder; a zero divisor panics
+			if a.t != tInt || b.t != tInt {
+				bad("%% on %s,%s", a.t, b.t)
+			}
+			r.lean = "(Int.tmod " + a.lean + " " + b.lean + ")"
+			r.panics = append(r.panics, "(!Int.isZeroB "+b.lean+")")
+			r.t = tInt
+			return r
 		case token.EQL, token.NEQ, token.LSS, token.LEQ, token.GTR, token.GEQ:
 			if a.t != b.t || (a.t != tInt && a.t != tBool) {
 				bad("comparison on %s,%s", a.t, b.t)
@@ -355,6 +369,12 @@ func (ev *env) args(xs []ast.Expr) ([]tre, tre) {
 }
 
 func (ev *env) call(c *ast.CallExpr) tre {
+	// additive (ties): a call whose printed form is DECLARED as an input of the target (`ctx.BlockHeight()`,
+	// `ctx.BlockTime()`, `len(xs)`, `delegation.GetShares()`): an opaque value of the declared type, nothing is assumed
+	// about it.  Undeclared calls stay unsupported.
+	if t, ok := ev.vars[exprStr(c)]; ok && strings.HasSuffix(exprStr(c), ")") {
+		return tre{lean: ev.lname(exprStr(c)), t: t}
+	}
 	// conversions and builtins
 	if id, ok := c.Fun.(*ast.Ident); ok {
 		switch id.Name {
